@@ -804,6 +804,10 @@ def _format_italics(collection):
     # removes pairs of italics nodes that don't do anything noticeable
     new_collection = _remove_noop_italics(new_collection)
 
+    # a line break after which nothing is displayed is not part of the text
+    while new_collection and new_collection[-1].is_explicit_break():
+        new_collection.pop()
+
     # remove spaces to the end of the lines
     new_collection = _remove_spaces_at_end_of_the_line(new_collection)
 
